@@ -79,8 +79,11 @@ class G:
             if not (bn and bn[0][0] == 'List'):
                 prev_kind = bn[0][0] if bn else None
             if lines:
-                # a blank line between blocks (a setext underline / paragraph must not merge with what follows)
-                lines.append('')
+                # a blank line between blocks (a setext underline / paragraph must not merge with what follows); now and then two or three of them
+                gap = 1 if rng.random() < 0.85 else rng.randint(2, 3)
+                if gap > 1:
+                    self.kinds['several_blank_lines_between_blocks'] = self.kinds.get('several_blank_lines_between_blocks', 0) + 1
+                lines += [''] * gap
             nodes += self.shift(bn, len(lines))
             lines += bl
         return lines, nodes
@@ -148,7 +151,10 @@ class G:
         lead = rng.choice([0, 0, 1, 3])
         if lead:
             self.kinds['leading_blank_lines'] = self.kinds.get('leading_blank_lines', 0) + 1
-        return '\n'.join([''] * lead + lines) + '\n', self.shift(nodes, lead + 1)
+        trail = rng.choice([0, 0, 0, 1, 2, 3])
+        if trail:
+            self.kinds['trailing_blank_lines'] = self.kinds.get('trailing_blank_lines', 0) + 1
+        return '\n'.join([''] * lead + lines + [''] * trail) + '\n', self.shift(nodes, lead + 1)
 
 
 def flat(nodes):
